@@ -507,6 +507,19 @@ func genRegistry(out *vc.Out, r *vc.Rand, thorough bool) {
 		out.Count("kind:registry-seq")
 		out.Case(cs, execRegSeq(bases, ops), cs)
 	}
+	// a duplicate / late UnregisterByMappingID of the old mapping around a re-claim of the name by another client
+	urounds := 1500
+	if thorough {
+		urounds = 12000
+	}
+	for j := 0; j < urounds; j++ {
+		old := e("shared", baseA, 1, "m_old")
+		nw := e("shared", baseA, 2, fmt.Sprintf("m_new%d", j%3))
+		third := e("shared", baseA, 3, "m_third")
+		cs := uraceCase(bases, old, nw, third, j)
+		out.Count("kind:registry-late-unregister")
+		out.Case(cs, execURace(bases, old, nw, third), "")
+	}
 	// simultaneous claimants of one unclaimed name, different mapping ids
 	rounds := 1500
 	if thorough {
